@@ -1408,6 +1408,77 @@ Proof.
   reflexivity.
 Qed.
 
+(* non-vacuity of port_index_at_hash: a12b#4/ addressed by a12b03/x - the digits "12" of the
+   literal text do not count, the index handed down is 3 *)
+Example port_index_at_hash_nonvacuous :
+  let k := [97; 49; 50; 98] in let rest := [52; 47] in let x := [48; 51] in let r := [47; 120] in
+  ~ In 35 k /\ x <> [] /\ digits x /\ starts_with_digit r = false /\
+  port_index (k ++ 35 :: rest) (k ++ x ++ r) = 3 /\ dec x = 3.
+Proof.
+  cbv zeta. split; [|split; [|split; [|split; [|split]]]].
+  - cbn. intros H. repeat (destruct H as [H|H]; [discriminate|]). exact H.
+  - discriminate.
+  - repeat constructor.
+  - reflexivity.
+  - vm_compute. reflexivity.
+  - vm_compute. reflexivity.
+Qed.
+
+(* The statement at full strength - for every name whose segments `pre` in front of the first
+   '#' are spelled by the address as the pattern language says (literal text OR one of the
+   alternatives), the index handed down is the number spelled at the '#':
+     forall pre ds tl s x r, (forall d, ~ In (Enum d) pre) -> spells pre s ->
+       x <> [] -> digits x -> starts_with_digit r = false ->
+       port_index (render_segs (pre ++ [Enum ds]) ++ tl) (s ++ x ++ r) = dec x
+   is FALSE of the faithful model (known finding index-behind-alternatives): rBOILS_BEGIN
+   walks as many characters into the message as the NAME has in front of its '#'.
+   { p{q,r}#2/ -> { x } } with /pq1/x: the address spells index 1, port_index reads at
+   offset min(6, 5) = the end of "pq1/x", finds no digit and gives 0;
+   the child callback runs with object 132 (index 0) in both runs, not 133 (index 1). *)
+Definition tab_iba_sub : table :=
+  {| t_id := 1; t_dflt := false; t_ports := [([120], false)]; t_pos := []; t_assoc := [] |}.
+Definition tab_iba_root : table :=
+  {| t_id := 0; t_dflt := false;
+     t_ports := [([112; 123; 113; 44; 114; 125; 35; 50; 47], true)]; t_pos := []; t_assoc := [] |}.
+Definition tree_iba : tree := Node tab_iba_root [Some (Node tab_iba_sub [None])].
+Definition msg_iba : str := [47; 112; 113; 49; 47; 120].
+
+Theorem index_behind_alternatives_refuted :
+  exists pre ds tl s x r,
+    (forall d, ~ In (Enum d) pre) /\ spells pre s /\ x <> [] /\ digits x /\ dec x < dec ds /\
+    starts_with_digit r = false /\
+    t_ports tab_iba_root = [(render_segs (pre ++ [Enum ds]) ++ tl, true)] /\
+    strip msg_iba = s ++ x ++ r /\
+    dec x = 1 /\
+    port_index (render_segs (pre ++ [Enum ds]) ++ tl) (s ++ x ++ r) = 0 /\
+    child_obj 1 0 0 (dec x) = 133 /\
+    dispatch tree_iba msg_iba [] true 1 =
+    {| loc := Some [47]; matches := 1; obj := 1; dport := Some (1, 0);
+       log := [Ev 1 0 [120] 132 (Some [47; 112; 113; 49; 47; 120]) (Some (1, 0)) true;
+               Ev 0 0 [112; 113; 49; 47; 120] 1 (Some [47; 112; 113; 49; 47]) (Some (0, 0)) false] |} /\
+    dispatch tree_iba msg_iba [] false 1 =
+    {| loc := None; matches := 0; obj := 1; dport := Some (1, 0);
+       log := [Ev 1 0 [120] 132 None (Some (1, 0)) true;
+               Ev 0 0 [112; 113; 49; 47; 120] 1 None (Some (0, 0)) false] |}.
+Proof.
+  exists [Lit [112]; Alt [[113]; [114]]], [50], [47], [112; 113], [49], [47; 120].
+  split; [|split; [|split; [|split; [|split; [|split; [|split; [|split; [|split; [|split; [|split; [|split]]]]]]]]]]].
+  - intros d [H|[H|[]]]; discriminate.
+  - change [112; 113] with ([112] ++ [113] ++ []).
+    constructor; [constructor|]. constructor; [constructor; left; reflexivity|constructor].
+  - discriminate.
+  - repeat constructor.
+  - vm_compute. reflexivity.
+  - reflexivity.
+  - vm_compute. reflexivity.
+  - vm_compute. reflexivity.
+  - vm_compute. reflexivity.
+  - vm_compute. reflexivity.
+  - vm_compute. reflexivity.
+  - vm_compute. reflexivity.
+  - vm_compute. reflexivity.
+Qed.
+
 Lemma port_index_no_hash : forall name m, mem 35 name = false -> port_index name m = 0.
 Proof.
   unfold port_index. induction name as [|c name IH]; intros m H; [reflexivity|].
